@@ -8,7 +8,7 @@ World (plain JSON):
      "resolver": {"kind": "upgrade"|"min_install", "empty_tree": bool, "force_replace": bool,
                   "verify_vdb": bool, "group": bool}}
     PKG = {"cpv": "a/p0-2", "slot": "0", "deps": {"RDEPEND": [CLAUSE...], ...}}
-    CLAUSE = [atomstr]            plain dependency / blocker
+    CLAUSE = [atomstr]            plain dependency / blocker (a generated package never blocks itself)
            | [atomstr, atomstr..] any-of group  `|| ( a b )`  (never contains blockers)
 
 The dependency string handed to pkgcore is rendered from the clause lists, so the oracle never has to parse
@@ -465,7 +465,14 @@ def _dep_clause(rnd, names, profile, own=None):
     return [_dep_atom(rnd, names, profile, own=own)]
 
 
-def _pkg_deps(rnd, names, profile, density, own=None):
+class _Self:
+    """just enough of a package for RAtom.match"""
+
+    def __init__(self, key, ver, slot):
+        self.key, self.ver, self.rev, self.slot = key, ver, None, slot
+
+
+def _pkg_deps(rnd, names, profile, density, own=None, ver=None, slot=None):
     n = _w(rnd, [(0, 3), (1, 4), (2, 3), (3, 1)]) if density else _w(rnd, [(0, 6), (1, 3), (2, 1)])
     deps = {}
     for _ in range(n):
@@ -480,6 +487,8 @@ def _pkg_deps(rnd, names, profile, density, own=None):
             if not pool:
                 continue
         cl = _dep_clause(rnd, pool, profile, own)
+        if ver is not None and len(cl) == 1 and ratom(cl[0]).blocks and ratom(cl[0]).match(_Self(own, ver, slot)):
+            continue  # a package that blocks itself is not a well-formed package
         deps.setdefault(cls, [])
         if cl not in deps[cls]:
             deps[cls].append(cl)
@@ -505,13 +514,13 @@ def gen_world(seed: int, profile="full", max_pkgs=12):
         for v in vers:
             if total >= max_pkgs:
                 break
-            d = {"cpv": f"{key}-{v}", "slot": slot_of[v], "deps": _pkg_deps(rnd, names, profile, density, key)}
+            d = {"cpv": f"{key}-{v}", "slot": slot_of[v], "deps": _pkg_deps(rnd, names, profile, density, key, v, slot_of[v])}
             where = src2 if (two_src and rnd.randrange(3) == 0) else src
             where.append(d)
             total += 1
             if two_src and rnd.randrange(4) == 0 and total < max_pkgs:
                 other = src if where is src2 else src2  # same cpv offered by both source repositories
-                other.append({"cpv": d["cpv"], "slot": d["slot"], "deps": _pkg_deps(rnd, names, profile, density, key)})
+                other.append({"cpv": d["cpv"], "slot": d["slot"], "deps": _pkg_deps(rnd, names, profile, density, key, v, slot_of[v])})
                 total += 1
         inst_mode = _w(rnd, [("none", 4), ("one", 5), ("perslot", 2)])
         if inst_mode != "none" and total < max_pkgs:
@@ -528,7 +537,7 @@ def gen_world(seed: int, profile="full", max_pkgs=12):
                 if same is not None and rnd.randrange(3) > 0:
                     deps = {c: [list(cl) for cl in cls] for c, cls in same["deps"].items()}
                 else:
-                    deps = _pkg_deps(rnd, names, profile, density, key)
+                    deps = _pkg_deps(rnd, names, profile, density, key, v, sl)
                 vdb.append({"cpv": f"{key}-{v}", "slot": sl, "deps": deps})
                 total += 1
     repos = {"src": src, "vdb": vdb}
